@@ -18,7 +18,7 @@ LEVEL = 'model_checking'
 SGR = re.compile(r'\x1b\[[0-9;]*m')
 MODS = ['bold', 'dim', 'italic', 'underline', 'blink', 'inverse', 'hidden', 'strikethrough']
 SPECS = ['', '>5', '<5', '^6', '*^7', '.1', '>5.1', '3']
-TCHARS = ['a', ' ', '{', '}', ':', 'é', '日', '́']
+TCHARS = ['a', ' ', '{', '}', ':', 'é', '日', '́', '\\', 'e']
 CLEAN = re.compile(r'^[^{}:\\\'"\x00-\x1f]*$')
 
 
@@ -244,7 +244,7 @@ def run(rc):
     policy_lattice(rc)
     method_bfs(rc, 4 if quick else 5)
     c = rc.total.counts
-    rc.rule = ('(a) styles = fg,bg in {none,0,7,8,15,16,255,RGB} x all 256 modifier subsets x 2 texts x 3 specs; (b) all texts of length <= ' + ('2' if quick else '3') + ' over {a,space,{,},:,e-acute,CJK,combining} + longer ones x 8 format specs x 7 styles; '
+    rc.rule = ('(a) styles = fg,bg in {none,0,7,8,15,16,255,RGB} x all 256 modifier subsets x 2 texts x 3 specs; (b) all texts of length <= ' + ('2' if quick else '3') + ' over {a,space,{,},:,e-acute,CJK,combining,backslash,e} + longer ones x 8 format specs x 7 styles; '
                'each through str/format/f-string/.fmt()/call/apply/len/repr round trip with colour on and off; (c) 54 colour-policy combinations '
                '(explicit x NO_COLOR x FORCE_COLOR x tty); (d) BFS over chainable modifier methods; non-trivial = styled or formatted case')
     rc.coverage.update({'states': c.get('states', 0), 'transitions': c.get('transitions', 0),
